@@ -27,7 +27,7 @@ CLAIMS = {
     'C12': ('proof', 'abstract file-content model of pickle / whole-manager / JSON dumps and loads (the harness re-reads the files the real code wrote and feeds the same content to the model); pickle load proved at full strength for any levels flag, any target order, constant and absent roots; manager round trip unconditional; JSON dump half proved, JSON reader tied by correspondence', 'Lean 4 proof + differential correspondence'),
     'C13': ('proof', 'image/preimage on the model (DDProps/C13) tied by exhaustive one-pair correspondence; imageF/image proved for any order, preimage proved under the hypotheses that exclude findings F5 and F5b (both refuted in Lean on concrete witnesses)', 'Lean 4 proof + differential correspondence'),
     'C14': ('proof', 'add_var/undeclare_vars on the model (DDProps/C14) tied by interleaving correspondence', 'Lean 4 proof + differential correspondence'),
-    'C15x': ('proof', 'Lean model of dd.mdd.MDD (n-ary nodes, first edge regular, set allocator with recorded pop schedule) and of bdd_to_mdd; MInv, find_or_add / ite / apply (regenerated table) / canonicity / collection proved, every reachable MDD state good; bdd_to_mdd: MDD half proved, BDD half (reorder into zones + cofactors) as a named hypothesis, tied by exact-state correspondence and an evaluation oracle on every integer assignment', 'Lean 4 proof + regenerated tables + differential correspondence'),
+    'C15': ('proof', 'Lean model of dd.mdd.MDD (n-ary nodes, first edge regular, set allocator with recorded pop schedule) and of bdd_to_mdd; MInv, find_or_add / ite / apply (regenerated table) / canonicity / collection (either root sign) proved, every reachable MDD state good; bdd_to_mdd proved end to end (reorder into zones via the C07 sort theorem, cofactors via C04, MDD side) for managers with dynamic reordering not enabled, held functions preserved on every valid integer assignment; tied by exact-state correspondence and an evaluation oracle on every integer assignment', 'Lean 4 proof + regenerated tables + differential correspondence'),
     'C16': ('proof', 'abstract DDDMP file model (header tables, node list, re-indexing, bottom-up rebuild, root translation) with C16_load_spec proved for every well-formed file and numbering; text files tied by correspondence (the harness writes text and abstract encodings from the same data)', 'Lean 4 proof + differential correspondence'),
     'C17': ('proof', 'total step function: errors keep the invariant (DDProps/C17) tied by malformed-call injection', 'Lean 4 proof + differential correspondence'),
     'C19': ('proof', 'source-level only (the C extensions cannot be built here): translators over the four .pyx files regenerate Lean tables on every run; cApply_sound / cVocab / refTraces_balanced re-decided on them; partial by nature: relative to the line-structured reader and the hand-written C API semantics; nothing is executed', 'Lean 4 decide over tables regenerated from the .pyx sources'),
@@ -35,7 +35,6 @@ CLAIMS = {
 }
 
 PENDING = {
-    'C15': 'MDD slice merged; its model is being switched to mirror the repaired MDD.collect_garbage (fix 8c0881c); claimed again when the check is green',
 }
 
 
